@@ -36,7 +36,7 @@ def mkRange (s : RangeSpec) : Except RangeErr AddrRange :=
   match normalise s with
   | .error e => .error e
   | .ok (start, stop, size) =>
-    if start < 0 ∨ stop < 0 then .error .negative
+    if start < 0 ∨ stop < 0 ∨ (s.base.getD 0) < 0 then .error .negative
     else if start ≥ stop then .error .empty
     else .ok { start, stop, size, base := s.base, idx := s.idx, desc := s.desc }
 
